@@ -1,10 +1,10 @@
 SPECIFICATION Spec
 CONSTANTS
-  MaxSeeds = 2
-  MaxOps = 1
-  Universe = "thorough"
+  MaxSeeds = 3
+  MaxOps = 0
+  Universe = "laws"
 INVARIANT Commutative
+INVARIANT Associative
+INVARIANT Distributive
 INVARIANT Identities
-INVARIANT PowerLaws
-INVARIANT ShapeLaw
 CHECK_DEADLOCK FALSE
